@@ -307,8 +307,10 @@ def logical_line_starts(src):
 def node_kind(n):
     if isinstance(n, (ast.Import, ast.ImportFrom)):
         return "Import"
-    if isinstance(n, ast.Expr) and isinstance(n.value, ast.Constant) and isinstance(n.value.value, (str, bytes)):
-        return "StrExpr"
+    if isinstance(n, ast.Expr) and isinstance(n.value, ast.Constant) and isinstance(n.value.value, str):
+        return "StrExpr"                 # includes implicit concatenation; f-strings are JoinedStr -> Other
+    if isinstance(n, ast.Expr) and isinstance(n.value, ast.Constant) and isinstance(n.value.value, bytes):
+        return "BytesExpr"
     return "Other"
 
 
